@@ -1335,7 +1335,8 @@ fn execute_inner(ctx: &mut Ctx, lines: &[String]) -> Vec<String> {
                         if let Some((last, _)) = h.recs.last() {
                             let order = f.reading_order();
                             if let Some(newest) = order.last() {
-                                let ends = |n: &String| { let c = std::fs::read(dir.join(n)).unwrap_or_default(); !c.is_empty() && c.ends_with(last) };
+                                // (a record that is only a line ending says nothing about where it is)
+                                let ends = |n: &String| { let c = std::fs::read(dir.join(n)).unwrap_or_default(); last.len() > 2 && !c.is_empty() && c.ends_with(last) };
                                 if ends(newest) && &target != newest {
                                     ctx.report.fail(&case_id, "link-not-current", &format!("line {li}: the symlink resolves to {target:?}, but the record written last is at the end of {newest:?} (files {order:?})"));
                                 }
